@@ -171,3 +171,18 @@ CHECKS["C15"] = {"pkg": "netsim", "test": "TestC15", "level": "exploration",
     "assumptions": E3_ASSUME + ["one ipBlock peer per rule (several are merged into one set with conflicting elements, reported under C16)",
                                 "whether ipset 'add -exist' overwrites the nomatch flag is not settled; the fake keeps the existing element"],
     "floors": {"stale_glx_garbage": 0.3, "pod_changed": 0.3}}
+
+CHECKS["C16"] = {"pkg": "netsim", "test": "TestC16", "level": "exploration",
+    "quick": {"checks": 1500, "timeout": 900}, "thorough": {"checks": 64000, "shards": 16, "timeout": 2400},
+    "rule": "rapid draws a cluster (2-4 labelled namespaces, 3-10 labelled pods with IPs, local or remote) and 0-5 policies (pod selectors with "
+            "matchLabels/matchExpressions, namespace selectors, both combined, ipBlocks with excepts incl. 0.0.0.0/0, numeric TCP/UDP ports, "
+            "empty from/to, empty ports, every policyTypes combination). The real policy manager installs rules on the strict fakes (two full "
+            "syncs); then the flow universe is enumerated exhaustively per case: src,dst in pods + external addresses inside/outside every "
+            "block and except, tcp/udp, every mentioned port + one other, for all flows touching a local pod. Oracle: the packet walker's "
+            "verdict on the installed tables vs a reference evaluator written from the Kubernetes API documentation. A mismatch that a "
+            "recorded deviation (known_findings.txt DE,DA,DC,DS,DF,DM,DZ,Dcombined) explains is counted under that finding; any other "
+            "mismatch is a violation. evaluations = clusters; coverage.extra.flows = flows judged. Non-trivial = >=1 isolated local pod "
+            "and both ACCEPT and DROP verdicts occur.",
+    "assumptions": E3_ASSUME + ["new-connection packets on the FORWARD hook (pod-to-pod and pod-to-external traffic through this node); conntrack RELATED,ESTABLISHED never matches a first packet",
+                                "numeric ports only (named ports are documented as unsupported)"],
+    "floors": {"isolated_local_pod": 0.3, "agrees_with_kubernetes_semantics": 0.2}}
